@@ -100,9 +100,32 @@ let run_labels (p : sexp) : string =
   "model=" ^ codes_to_string (LabelScope.scan_program bodies []) ^
   " spec=" ^ codes_to_string (LabelScope.spec_program bodies)
 
+(* ---- C06 ------------------------------------------------------------------ *)
+let rec syntax_stmt (s : sexp) : Syntax.stmt =
+  match s with
+  | L [A "G"; _] -> Syntax.SGoto
+  | L [A "X"] -> Syntax.SLoop
+  | L [A "P"] -> Syntax.SPoison
+  | L [A "I"; _; t] -> Syntax.SIf (syntax_stmt t, None)
+  | L [A "I"; _; t; e] -> Syntax.SIf (syntax_stmt t, Some (syntax_stmt e))
+  | L (A "B" :: ss) -> Syntax.SBlock (List.map syntax_stmt ss)
+  | _ -> Syntax.SSimple
+
+let not_return (s : sexp) = match s with L (A "R" :: _) -> false | _ -> true
+
+let run_syntax (fixed : bool) (p : sexp) : string =
+  let bodies = List.map (fun b -> List.map syntax_stmt (List.filter not_return b)) (functions_of p) in
+  let cat f = List.concat (List.map f bodies) in
+  "model=" ^ codes_to_string (cat (Syntax.body_codes fixed)) ^
+  " spec=" ^ codes_to_string (cat Syntax.spec_body) ^
+  " lint=" ^ codes_to_string (cat Syntax.lint_body) ^
+  " lintspec=" ^ codes_to_string (cat Syntax.lint_spec_body)
+
 let dispatch (stream : string) (x : sexp) : string =
   match stream with
   | "labels" -> run_labels x
+  | "syntax" -> run_syntax true x
+  | "syntax-pinned" -> run_syntax false x
   | _ -> failwith ("unknown stream " ^ stream)
 
 let () =
